@@ -9,8 +9,17 @@
 (* broken uncomputed cell, or the cell / an uncomputed precedent it has to *)
 (* evaluate is broken) is recorded; the address is still marked verified   *)
 (* and its needed addresses are still pushed.                              *)
+(* A workbook with iterative calculation switched on (calculation.iterate, *)
+(* constant Iterate) is evaluated differently: nothing is "already         *)
+(* computed", every evaluate() recalculates the whole precedent cone of    *)
+(* the cell from the inputs and overwrites what the cone held.  What is    *)
+(* compared there is the result the FILE stores for the cell (StoredP)     *)
+(* with the recalculated one: the value the cell happens to hold when it   *)
+(* comes off the work list may already be a recalculated one.              *)
 (* Choices made in Init: the perturbed cell p and its stored value pv      *)
-(* (or no perturbation), the output list, the tolerance.                   *)
+(* (or no perturbation), the output list, the tolerance (-1 = None, the    *)
+(* default: relative closeness; 0, 1, 2 .. = an absolute tolerance, where  *)
+(* 0 asks for equal numbers).                                              *)
 (* Property (checked when the work list is empty):                         *)
 (*   no perturbation, nothing broken  => empty report                      *)
 (*   p reachable                      => p reported with (stored, recomputed)*)
@@ -20,9 +29,10 @@
 EXTENDS Engine
 
 CONSTANTS OutputLists,   \* set of sequences of nodes (output_addrs)
-          Tols,          \* subset of {0 (= None), 1, 2, ...}
+          Tols,          \* subset of {-1 (= None), 0, 1, 2, ...}
           Perturbs,      \* set of <<cell, value>> stored-result alterations
-          Broken         \* formula cells whose evaluation raises
+          Broken,        \* formula cells whose evaluation raises
+          Iterate        \* BOOLEAN: the workbook calculates iteratively
 
 VARIABLES p, outs, tol, todo, verified, mism, excs
 vvars == <<vars, p, outs, tol, todo, verified, mism, excs>>
@@ -36,9 +46,11 @@ Abs(i) == IF i < 0 THEN -i ELSE i
 Numeric(v) == v[1] = "N" \/ v[1] = "B"
 Close(a, b) ==
   IF Numeric(a) /\ Numeric(b)
-  THEN IF tol = 0                    \* tolerance None: relative 1e-5 (math.isclose)
+  THEN IF tol < 0                    \* tolerance None: relative 1e-5 (math.isclose)
        THEN Abs(a[2] - b[2]) <= (IF Abs(a[2]) >= Abs(b[2]) THEN Abs(a[2]) ELSE Abs(b[2])) \div 100000
-       ELSE Abs(a[2] - b[2]) <= tol
+       ELSE Abs(a[2] - b[2]) <= tol   \* "altered by more than the tolerance" is
+                                      \* the complement: equal numbers are close
+                                      \* under every tolerance, 0 included
   ELSE a = b
 
 (* _gen_graph(addr): build the missing ancestors, stored results for new    *)
@@ -82,7 +94,10 @@ VStep ==
          \* what _gen_graph evaluates (new ranges) and what the check evaluates
          needBuild == UNION {Needed(r, c0) : r \in B \cap (Ranges \cup Aliases)}
          st == BuildOnly(n)
-         needEval == IF n \in Formulas THEN Needed(n, [st.cache EXCEPT ![n] = NoneV]) ELSE {}
+         \* (iteratively: the whole cone of the cell, computed before or not)
+         needEval == IF n \notin Formulas THEN {}
+                     ELSE IF Iterate THEN AncOf(n) \ Inputs
+                     ELSE Needed(n, [st.cache EXCEPT ![n] = NoneV])
      IN  /\ built' = st.built
          /\ edges' = st.edges
          /\ verified' = verified \cup {n}
@@ -99,8 +114,10 @@ VStep ==
                  /\ mism' = mism
             ELSE /\ excs' = excs
                  /\ IF n \in Formulas
-                    THEN LET orig == st.cache[n]
-                             c1 == Fill([st.cache EXCEPT ![n] = NoneV], {n})
+                    THEN LET orig == IF Iterate THEN StoredP(n) ELSE st.cache[n]
+                             c1 == IF Iterate
+                                   THEN FillLevels(st.cache, AncOf(n) \ Inputs, 1)
+                                   ELSE Fill([st.cache EXCEPT ![n] = NoneV], {n})
                          IN  /\ cache' = c1
                              /\ mism' = IF orig = NoneV \/ Close(c1[n], orig) THEN mism
                                         ELSE Append(SelectSeq(mism, LAMBDA m : m[1] # n),
